@@ -212,7 +212,7 @@ def run_modified(ctx, model_ok):
     rng = ctx.rng
     V = P.Values()
     todo = []
-    for _ in range(ctx.n(150, 2000)):
+    for _ in range(ctx.n(150, 1200)):
         cls = rng.choice(["variational_gamma", "variational_gamma", "inside_outside", "maximization"])
         its, kn, km = decorated_input(rng, ctx, kinds=None if rng.random() < 0.2 else SAFE_KINDS)
         sm = rng.choice([None, True, False])
@@ -304,7 +304,9 @@ def run_date(ctx):
     import tsdate
     import _tskit
     rng = ctx.rng
-    for _ in range(ctx.n(200, 2500)):
+    total = raised = 0
+    for _ in range(ctx.n(200, 2000)):
+        total += 1
         method = rng.choice(["variational_gamma", "variational_gamma", "inside_outside", "maximization"])
         discrete = method != "variational_gamma"
         its, kn, km = decorated_input(rng, ctx, kinds=SAFE_KINDS, edge_md=not discrete,
@@ -338,8 +340,9 @@ def run_date(ctx):
                                       "unphased": unphased})
         try:
             ots = tsdate.date(its, **kw)
-        except (AssertionError, _tskit.LibraryError, FloatingPointError, ValueError, ZeroDivisionError) as e:
+        except Exception as e:   # noqa: BLE001 - raising is C35's business
             ctx.tally("date-raised(C35):%s" % type(e).__name__)
+            raised += 1
             ctx.case(desc, nontrivial=False, kind="date/%s/raised" % method)
             continue
         changed = not np.array_equal(ots.nodes_time, its.nodes_time)
@@ -348,6 +351,8 @@ def run_date(ctx):
         if moved:
             ctx.tally("date/unphased-runs-with-moved-singletons")
         report(ctx, its, ots, unphased, payload)
+    if total >= 20 and raised > total // 2:
+        ctx.tie_fail("correspondence", "date() raises on most inputs", "%d of %d runs raised: %r" % (raised, total, ctx.dist))
 
 
 def run(ctx, model_ok=True):
